@@ -57,6 +57,12 @@ def run(chk, replay=None):
         for name, s in pumped(n):
             for lim in (DEFAULT, {"maxh": 512, "maxb": 256}, {"maxh": n + 64, "maxb": max(n // 2, 4)}):
                 items.append(("%s*%d" % (name, n), s + (follow if len(s) < 3000 else b""), lim, "sampled" if n <= 100 else "none", chk.seed + len(items)))
+            # limits well below the stream, delivered in reads that are each smaller than the limit
+            lim = {"maxh": max(n // 2, 24), "maxb": max(n // 4, 8)}
+            items.append(("%s*%d" % (name, n), s + (follow if len(s) < 3000 else b""), lim, "sampled" if n <= 100 else "pieces", chk.seed + len(items)))
+            if "unterminated" in name:
+                # ... and really unterminated: nothing follows
+                items.append(("%s*%d (alone)" % (name, n), s, lim, "sampled" if n <= 100 else "pieces", chk.seed + len(items)))
     traces, meta, rej = fc.execute(chk, "C06", fc.C06, items, batch=25)
     for t in traces:
         rec = meta[str(t["id"])]
